@@ -8,7 +8,7 @@
 (*   render loop Render (reqList: focus or t.version changed -> refreshPreview), RefreshSet, Display                  *)
 (*               refreshPreview = TRY-SEND `cancel` on the unbuffered killChan, THEN overwrite the one-slot           *)
 (*               previewBox: two steps (the previewer and the watcher do not take t.mutex, so they interleave)        *)
-(*   exit path   ExitQuit (previewBox.Set(reqQuit); EvtQuit), ExitKill (TRY-SEND `kill`), ExitCtx (cancel()),         *)
+(*   exit path   Exit (previewBox.Set(reqQuit); EvtQuit), ExitKill (TRY-SEND `kill`), ExitCtx (cancel()),             *)
 (*               ProcExit (the coordinator returns, the process image and all goroutines disappear)                   *)
 (*   previewer   Pick (previewBox.Wait; version++), Start (cmd.Start; spawns reader, ticker, watcher),                *)
 (*               Eof (reader saw EOF, cmd.Wait, final display, finishChan <- true), Reaped (both reapChan received)   *)
@@ -30,7 +30,7 @@
 (*                   while the window was hidden) and does not refresh: move away, show, move back (found by TLC      *)
 (*                   with 4 user actions, reproduced on the real binary with `up+toggle-preview+down`; finding F18,  *)
 (*                   fixed in /repo by bumping t.version in that branch: ShowBumpsVersion = TRUE)                    *)
-(* The properties are proved on the behaviours in which no deviation fired (dev = {}); MC_Preview_dev.cfg checks the  *)
+(* The properties are proved on the behaviours in which no deviation fired (dev = {}); MC_Preview_dev*.cfg check the *)
 (* strict versions and keeps TLC's counterexamples.                                                                   *)
 EXTENDS Integers, Sequences, FiniteSets, TLC
 
